@@ -36,4 +36,5 @@ ASSUME PathsReachTarget
 ASSUME ReaderWriterAgree
 ASSUME RelocConsistent
 ASSUME SaveYieldsBytes
+ASSUME ArraysPreserved
 =============================================================================
